@@ -99,6 +99,18 @@ MUTATIONS = [
              "                servobs._trigger = asyncio.get_running_loop().create_future()\n\n                is_last ="),
         ],
     ),
+    # white-box adversary round (notes/adversary/C08_miss{1,2,3}.md, C08_caught.md A, B, G1)
+    ("C08", "backlog-bounded-dropping-the-newest", FIX + [(MM, '            self.log.debug("Message to %s put into backlog", message.remote)\n',
+                                                           '            if len(self._backlogs[message.remote]) >= 16:\n                return\n            self.log.debug("Message to %s put into backlog", message.remote)\n')]),
+    ("C08", "rst-stops-all-registrations-of-the-endpoint", FIX + [(MM, '            messageerror_monitor()\n        self.log.debug("Exchange removed',
+                                                                   '            messageerror_monitor()\n            self.token_manager.dispatch_error(error.MessageError(), message.remote)\n        self.log.debug("Exchange removed')]),
+    ("C08", "new-request-voids-all-queued-responses-of-the-endpoint", FIX + [(MM, "                if not (m.code.is_response() and m.token == request.token)\n",
+                                                                              "                if not m.code.is_response()\n")]),
+    ("C08", "trigger-slot-cleared-after-first-response", FIX + [(IF, "            pipe.add_response(first_response, is_last=False)\n",
+                                                                 "            pipe.add_response(first_response, is_last=False)\n            if servobs._trigger.done():\n                servobs._trigger = asyncio.get_running_loop().create_future()\n")]),
+    ("C08", "rst-drops-whole-backlog-of-the-endpoint", FIX + [(MM, "                if monitor is not messageerror_monitor\n", "                if False\n")]),
+    ("C08", "error-of-one-remote-stops-all-observers", FIX + [(TM, "            if remote == _r:\n                stoppers.append(stopper)\n",
+                                                               "            if True:\n                stoppers.append(stopper)\n")]),
     ("C08", "shutdown-leaves-observations", FIX + [(TM, "            (_, stop) = self.incoming_requests.pop(key)\n            # This cancels them, not sending anything.", "            (_, stop) = self.incoming_requests.pop(key)\n            stop = lambda: None\n            # This cancels them, not sending anything.")]),
 ]
 
